@@ -53,7 +53,22 @@ foreach(src IN LISTS VH_TARGET_SRCS)
 endforeach()
 list(REMOVE_DUPLICATES VH_PROPS)
 foreach(prop IN LISTS VH_PROPS)
-  add_executable(vh_${prop} EXCLUDE_FROM_ALL ${VH_SRCS_${prop}})
+  # optional harness/targets/cNN.upstream: repo-relative upstream fuzz sources to compile in (run as targets up_<name>)
+  set(VH_UP_${prop})
+  if(EXISTS ${VH_DIR}/targets/${prop}.upstream)
+    set_property(DIRECTORY APPEND PROPERTY CMAKE_CONFIGURE_DEPENDS ${VH_DIR}/targets/${prop}.upstream)
+    file(STRINGS ${VH_DIR}/targets/${prop}.upstream _up_lines)
+    foreach(l IN LISTS _up_lines)
+      string(STRIP "${l}" l)
+      if(l AND NOT l MATCHES "^#")
+        list(APPEND VH_UP_${prop} ${VH_REPO}/${l})
+      endif()
+    endforeach()
+    if(VH_UP_${prop})
+      list(APPEND VH_UP_${prop} ${VH_DIR}/engine/upstream_bridge.cpp)
+    endif()
+  endif()
+  add_executable(vh_${prop} EXCLUDE_FROM_ALL ${VH_SRCS_${prop}} ${VH_UP_${prop}})
   target_include_directories(vh_${prop} PRIVATE ${VH_REPO}/src ${CMAKE_BINARY_DIR}/src ${VH_DIR})
   # --whole-archive not needed: targets self-register from the executable's own objects
   target_link_libraries(vh_${prop} PRIVATE vh_engine $<TARGET_NAME_IF_EXISTS:vh_kits> ${VH_LINK_LIBS})
